@@ -478,5 +478,187 @@ func factsC10(r *Repo) []Fact {
 	} else {
 		out = append(out, boolFact("toolCallOwnRunInfo", tOK, "compose/tool_node.go: ctx = callbacks.ReuseHandlers(ctx, &RunInfo{Name: task.name, …}) before the tool runs"))
 	}
+	// runWithCallbacks: onError is reached on every err != nil path — nothing returns between
+	// the call of the wrapped function and the onError call, and the onError call sits directly
+	// in the top-level `if err != nil` block
+	out = append(out, c10WrapperOnErrorAlways(cp))
+
+	// tool calls: the ReuseHandlers(ctx, own RunInfo) statement is executed unconditionally, also
+	// for a tool that fires its own callbacks
+	out = append(out, c10ToolRunInfoUnconditional(cp))
 	return out
+}
+
+func c10WrapperOnErrorAlways(cp *Pkg) Fact {
+	const name, where = "wrapperOnErrorAlways", "compose/utils.go runWithCallbacks"
+	rw, _ := cp.Func("", "runWithCallbacks")
+	if rw == nil || rw.Body == nil {
+		return unknownFact(name, "Bool", "false", where, "function not found")
+	}
+	var lit *ast.FuncLit
+	ast.Inspect(rw.Body, func(n ast.Node) bool {
+		if fl, ok := n.(*ast.FuncLit); ok && lit == nil {
+			lit = fl
+			return false
+		}
+		return lit == nil
+	})
+	if lit == nil {
+		return unknownFact(name, "Bool", "false", where, "the returned function literal was not found")
+	}
+	// the call of the wrapped function and the top-level `if err != nil` holding the onError call
+	var rPos, ePos token.Pos
+	direct := false
+	for _, st := range lit.Body.List {
+		if as, ok := st.(*ast.AssignStmt); ok && len(as.Rhs) == 1 && rPos == token.NoPos {
+			if c, ok := as.Rhs[0].(*ast.CallExpr); ok && exprString(c.Fun) == "r" {
+				rPos = c.Pos()
+			}
+		}
+		if is, ok := st.(*ast.IfStmt); ok && rPos != token.NoPos && ePos == token.NoPos && exprString(is.Cond) == "err!=nil" && is.Init == nil {
+			for _, inner := range is.Body.List {
+				var call ast.Expr
+				switch x := inner.(type) {
+				case *ast.AssignStmt:
+					if len(x.Rhs) == 1 {
+						call = x.Rhs[0]
+					}
+				case *ast.ExprStmt:
+					call = x.X
+				}
+				if c, ok := call.(*ast.CallExpr); ok && exprString(c.Fun) == "onError" {
+					ePos = c.Pos()
+					direct = true
+					break
+				}
+			}
+		}
+	}
+	if rPos == token.NoPos {
+		return unknownFact(name, "Bool", "false", where, "the call of the wrapped function r(ctx, input, opts...) was not found")
+	}
+	if ePos == token.NoPos {
+		// is onError called at all?
+		called := false
+		ast.Inspect(lit.Body, func(n ast.Node) bool {
+			if c, ok := n.(*ast.CallExpr); ok && exprString(c.Fun) == "onError" && c.Pos() > rPos {
+				called = true
+			}
+			return true
+		})
+		if !called {
+			return unknownFact(name, "Bool", "false", where, "no onError call after the wrapped call")
+		}
+		return boolFact(name, false, where+": the onError call is not a direct statement of the top-level `if err != nil` block (it is conditional)")
+	}
+	// anything that leaves the function between r(...) and onError(...)
+	leaves := ""
+	ast.Inspect(lit.Body, func(n ast.Node) bool {
+		if n == nil || leaves != "" {
+			return false
+		}
+		if n.Pos() <= rPos || n.Pos() >= ePos {
+			return true
+		}
+		switch x := n.(type) {
+		case *ast.ReturnStmt:
+			leaves = "return"
+		case *ast.BranchStmt:
+			if x.Tok == token.GOTO {
+				leaves = "goto"
+			}
+		case *ast.CallExpr:
+			if exprString(x.Fun) == "panic" {
+				leaves = "panic"
+			}
+		}
+		return true
+	})
+	if leaves != "" {
+		return boolFact(name, false, where+": a "+leaves+" between r(ctx, input, opts...) and the onError call — some err != nil path leaves without onError")
+	}
+	return boolFact(name, direct, where+": if err != nil { onError … } with nothing leaving the function between r(ctx, input, opts...) and onError")
+}
+
+// c10ReuseOwnInfoTopLevel: among the top-level statements of body that precede the statement
+// calling task.r.<run>, is there `ctx = callbacks.ReuseHandlers(ctx, &callbacks.RunInfo{Name:
+// task.name, Type: task.meta.componentImplType, Component: task.meta.component})`?
+// Returns "yes", "conditional" (the call exists but below some other statement, e.g. an if),
+// or "" (no such call).  A top-level `ctx = helper(ctx, task)` is followed one level.
+func c10ReuseOwnInfoTopLevel(cp *Pkg, body *ast.BlockStmt, run string, depth int) string {
+	isReuse := func(e ast.Expr) bool {
+		c, ok := e.(*ast.CallExpr)
+		if !ok || exprString(c.Fun) != "callbacks.ReuseHandlers" || len(c.Args) != 2 {
+			return false
+		}
+		want := map[string]string{"Name": "task.name", "Type": "task.meta.componentImplType", "Component": "task.meta.component"}
+		got := 0
+		ast.Inspect(c.Args[1], func(m ast.Node) bool {
+			if kv, ok := m.(*ast.KeyValueExpr); ok && want[exprString(kv.Key)] == exprString(kv.Value) && want[exprString(kv.Key)] != "" {
+				got++
+			}
+			return true
+		})
+		return got == 3
+	}
+	res := ""
+	for _, st := range body.List {
+		if run != "" && c10ContainsCallTo(st, "task.r."+run) {
+			break
+		}
+		if as, ok := st.(*ast.AssignStmt); ok && len(as.Lhs) == 1 && len(as.Rhs) == 1 && exprString(as.Lhs[0]) == "ctx" {
+			if isReuse(as.Rhs[0]) {
+				return "yes"
+			}
+			if c, ok := as.Rhs[0].(*ast.CallExpr); ok && depth == 0 {
+				if id, ok := c.Fun.(*ast.Ident); ok {
+					if h, _ := cp.Func("", id.Name); h != nil && h.Body != nil {
+						switch c10ReuseOwnInfoTopLevel(cp, h.Body, "", 1) {
+						case "yes":
+							return "yes"
+						case "conditional":
+							res = "conditional"
+						}
+					}
+				}
+			}
+			continue
+		}
+		found := false
+		ast.Inspect(st, func(m ast.Node) bool {
+			if e, ok := m.(ast.Expr); ok && isReuse(e) {
+				found = true
+			}
+			return !found
+		})
+		if found {
+			res = "conditional"
+		}
+	}
+	return res
+}
+
+func c10ToolRunInfoUnconditional(cp *Pkg) Fact {
+	const name, where = "toolRunInfoUnconditional", "compose/tool_node.go runToolCallTaskBy{Invoke,Stream}"
+	all := true
+	for nm, run := range map[string]string{"runToolCallTaskByInvoke": "Invoke", "runToolCallTaskByStream": "Stream"} {
+		fd, _ := cp.Func("", nm)
+		if fd == nil || fd.Body == nil {
+			return unknownFact(name, "Bool", "false", where, nm+" not found")
+		}
+		if !c10ContainsCallTo(fd.Body, "task.r."+run) {
+			return unknownFact(name, "Bool", "false", where, nm+": the call task.r."+run+" was not found")
+		}
+		switch c10ReuseOwnInfoTopLevel(cp, fd.Body, run, 0) {
+		case "yes":
+		case "conditional":
+			all = false
+		default:
+			return unknownFact(name, "Bool", "false", where, nm+": no ReuseHandlers(ctx, &RunInfo{Name: task.name, Type: task.meta.componentImplType, Component: task.meta.component}) before the tool runs")
+		}
+	}
+	if !all {
+		return boolFact(name, false, where+": the ReuseHandlers(ctx, own RunInfo) call is conditional — some tool calls run in the ToolsNode's own callback context")
+	}
+	return boolFact(name, true, where+": ctx = callbacks.ReuseHandlers(ctx, &RunInfo{task.name, componentImplType, component}) is an unconditional statement before task.r.Invoke / task.r.Stream")
 }
